@@ -104,6 +104,9 @@ func UnmarshalOrdered(data []byte) (*orderedmap.OrderedMap[string, any], error) 
 	if !ok {
 		return nil, fmt.Errorf("log line is not a JSON object")
 	}
+	if _, err := dec.Token(); err != io.EOF {
+		return nil, fmt.Errorf("log line holds more than one JSON object")
+	}
 	return m, nil
 }
 
